@@ -4,6 +4,7 @@ import (
 	"encoding/xml"
 	"fmt"
 	"os"
+	"path/filepath"
 	"regexp"
 	"runtime"
 	"strings"
@@ -49,7 +50,7 @@ var hostile = []string{"", "0", "-1", "1", "2", "1000", "1001", "10000", "10001"
 	"2020-01-01T00:00:00Z", "9999-12-31T23:59:59Z", "0000-00-00T00:00:00Z", "not-a-date", "url", "ETag", "ETag,", ",", "Checksum,ObjectParts",
 	"CRC32", "crc32", "SHA256", "CRC64NVME", "FULL_OBJECT", "COMPOSITE", "AAAAAA==", "!!!!", "private", "public-read", "bucket-owner-full-control",
 	"id=alice", "id=", "id=nobody", "uri=http://acs.amazonaws.com/groups/global/AllUsers", "emailAddress=a@b", "id=alice,id=bob", "COPY", "REPLACE",
-	"bkt-a/obj1", "/bkt-a/obj1", "bkt-a", "bkt-a/", "/", "bkt-a/obj1?versionId=", "bkt-a/obj1?versionId=null", "bkt-a/obj1?versionId=x&y", "nobucket/nokey", "%2e%2e/x"}
+	"mp0", "mp1", "mp2", "obj1", "dir/obj2", "bkt-a/obj1", "/bkt-a/obj1", "bkt-a", "bkt-a/", "/", "bkt-a/obj1?versionId=", "bkt-a/obj1?versionId=null", "bkt-a/obj1?versionId=x&y", "nobucket/nokey", "%2e%2e/x"}
 
 var longValues = []string{strings.Repeat("a", 256), strings.Repeat("a", 1025), strings.Repeat("a/", 600), strings.Repeat("9", 400), strings.Repeat("%41", 300)}
 
@@ -170,6 +171,9 @@ func build(fx *cat.Fixture, c caseA) (*s3c.Req, error) {
 	for _, m := range c.Muts {
 		switch m.Where {
 		case "query":
+			if m.Value == "=upload" {
+				m.Value = fx.UploadID
+			}
 			found := false
 			for i := range r.Query {
 				if r.Query[i].K == m.Name {
@@ -320,7 +324,10 @@ func procWorld(c caseA) (*world, error) {
 	if err != nil {
 		return nil, err
 	}
-	p, err := gw.StartProc(gw.Config{SB: sb, Versioning: c.Versioning, Sidecar: c.Sidecar})
+	// the real process runs with the access log on: the loggers see every answer, also the ones given before
+	// a request is authenticated
+	p, err := gw.StartProc(gw.Config{SB: sb, Versioning: c.Versioning, Sidecar: c.Sidecar,
+		ExtraArgs: []string{"--access-log", filepath.Join(sb.Area, "access.log")}})
 	if err != nil {
 		return nil, err
 	}
@@ -704,6 +711,24 @@ func TestC20Sweep(t *testing.T) {
 					ms = append(ms, mut{Where: "header-drop", Name: "x-amz-acl"})
 				}
 				cases = append(cases, caseA{Versioning: true, Spec: target(e), Caller: "root", Muts: ms})
+			}
+		}
+	}
+	// paging of ListMultipartUploads over the fixture's five uploads: every combination of markers and page size
+	for _, km := range []string{"", "mp0", "mp1", "mp2", "dir/mp3", "a", "zz"} {
+		for _, um := range []string{"", "=upload", "x", "zzzzzzzz"} {
+			for _, mu := range []string{"", "0", "1", "2", "3", "1000"} {
+				var ms []mut
+				if km != "" {
+					ms = append(ms, mut{Where: "query", Name: "key-marker", Value: km})
+				}
+				if um != "" {
+					ms = append(ms, mut{Where: "query", Name: "upload-id-marker", Value: um})
+				}
+				if mu != "" {
+					ms = append(ms, mut{Where: "query", Name: "max-uploads", Value: mu})
+				}
+				cases = append(cases, caseA{Versioning: true, Spec: cat.Spec{Op: "ListMultipartUploads", Bucket: "A", Key: "obj"}, Caller: "root", Muts: ms})
 			}
 		}
 	}
